@@ -452,7 +452,7 @@ func wireSpec(sent []sentFrame, base int, g refcodec.Frame) string {
 }
 
 func runTamper(c *Ctx) error {
-	c.Res.Rule = "honest AES-GCM transcripts (1–4 messages, single/multi-frame, either direction, with/without cleartext prelude) × single faults (every bit of the byte stream for the short transcripts; every frame dropped/duplicated/swapped/replayed/shortened/cut; IV stripped or shifted; forged frames of length 0,1,15,16,17,40 with either flag at every position; end-flag flips) + random 2–3-fault combinations; the harness is the on-path editor between two real keyed streams; distinct by (transcript, fault list); non-trivial = the tampered byte stream differs from the honest one"
+	c.Res.Rule = "honest AES-GCM transcripts (1–4 messages, single/multi-frame, either direction, with/without cleartext prelude) × single faults (every bit of the byte stream for the short transcripts; every frame dropped/duplicated/swapped/replayed/shortened/cut; IV stripped or shifted; forged frames of length 0,1,15,16,17,40 with either flag at every position; end-flag flips) + random 2–3-fault combinations; + reflection (the receiving endpoint's own protected frames fed back to it at any position, IV kept / stripped / the first frame's IV put in front, with and without cleartext exchanged before the key); the harness is the on-path editor between two real keyed streams; distinct by (transcript, fault list); non-trivial = the tampered byte stream differs from the honest one"
 	var cases []Case
 	nT := c.Pick(3, 10)
 	for t := 0; t < nT; t++ {
@@ -525,6 +525,10 @@ func runTamper(c *Ctx) error {
 			}
 		}
 	}
+	// reflection: an endpoint's own outgoing protected frames fed back to it
+	for i := 0; i < c.Pick(120, 1500); i++ {
+		cases = append(cases, reflectRun(c, i))
+	}
 	norm := func(s string) string {
 		if strings.HasPrefix(s, "err ") {
 			return "err"
@@ -532,6 +536,122 @@ func runTamper(c *Ctx) error {
 		return s
 	}
 	return diffBatch(c, "stream", cases, norm)
+}
+
+// reflectRun: both endpoints send; the on-path party feeds B frames that B itself emitted (IV
+// prefix kept, stripped, or — for a later frame — the first frame's IV prefix put in front), at the
+// start of the direction or after some honest frames from A. Nothing of it may be delivered.
+func reflectRun(c *Ctx, idx int) Case {
+	w := newWorld()
+	prelude := c.Rng.Intn(4) // 0: nothing in clear before the key (both transcript digests equal)
+	if prelude >= 1 {
+		_ = w.send("A", 1, randBytes(c, 1+c.Rng.Intn(10)))
+		_, _, _ = w.recvf("B")
+	}
+	if prelude >= 2 {
+		_ = w.send("B", 1, randBytes(c, 1+c.Rng.Intn(10)))
+		_, _, _ = w.recvf("A")
+	}
+	w.key("A", 9)
+	w.key("B", 9)
+	b := w.ep("B")
+	baseOwn := len(b.sent)
+	// B's own traffic (delivered honestly to A or not at all; irrelevant to B's receive side)
+	nOwn := 1 + c.Rng.Intn(3)
+	var ownMsgs [][]byte
+	for i := 0; i < nOwn; i++ {
+		m := randBytes(c, c.Rng.Intn(20))
+		ownMsgs = append(ownMsgs, m)
+		_ = w.send("B", 1, m)
+	}
+	ownBytes := append([]byte{}, w.pending["A"]...)
+	ownFrames, _ := refcodec.ParseFrames(ownBytes)
+	w.pending["A"] = nil
+	// honest frames from A
+	a := w.ep("A")
+	baseA := len(a.sent)
+	nA := c.Rng.Intn(3)
+	var msgs [][]byte
+	for i := 0; i < nA; i++ {
+		m := randBytes(c, c.Rng.Intn(20))
+		msgs = append(msgs, m)
+		_ = w.send("A", 1, m)
+	}
+	honest := append([]byte{}, w.pending["B"]...)
+	hFrames, _ := refcodec.ParseFrames(honest)
+	w.pending["B"] = nil
+	// the wire B sees: k honest frames, then a reflected own frame, then the rest
+	k := 0
+	if len(hFrames) > 0 {
+		k = c.Rng.Intn(len(hFrames) + 1)
+	}
+	j := c.Rng.Intn(len(ownFrames))
+	g := ownFrames[j]
+	variant := pick(c, []string{"asis", "asis", "noiv", "firstiv"})
+	spec := fmt.Sprintf("o%d", baseOwn+j)
+	switch variant {
+	case "noiv":
+		if j == 0 && len(g.Body) >= 16 {
+			g.Body = g.Body[16:]
+			g.Len = uint32(len(g.Body))
+			spec += "/noiv"
+		}
+	case "firstiv":
+		if j > 0 && len(ownFrames[0].Body) >= 16 {
+			var iv [16]byte
+			copy(iv[:], ownFrames[0].Body[:16])
+			g.Body = append(append([]byte{}, iv[:]...), g.Body...)
+			g.Len = uint32(len(g.Body))
+			spec += "/iv:" + ivStr(iv)
+		}
+	}
+	var wire []byte
+	var specs []string
+	for i := 0; i < k; i++ {
+		wire = append(wire, hFrames[i].Bytes()...)
+		specs = append(specs, wireSpec(a.sent, baseA, hFrames[i]))
+	}
+	wire = append(wire, g.Bytes()...)
+	specs = append(specs, spec)
+	for i := k; i < len(hFrames); i++ {
+		wire = append(wire, hFrames[i].Bytes()...)
+		specs = append(specs, wireSpec(a.sent, baseA, hFrames[i]))
+	}
+	b.c.Feed(wire)
+	w.log("wire B "+strings.Join(specs, " "), "ok")
+	var delivered [][]byte
+	for i := 0; i < len(msgs)+2; i++ {
+		m, err := w.recvc("B")
+		if err != nil {
+			break
+		}
+		delivered = append(delivered, m)
+	}
+	// property oracle C02: what B's application receives is a prefix of what A's application sent,
+	// and nothing at or after the reflected frame
+	bad := ""
+	if len(delivered) > k {
+		bad = fmt.Sprintf("%d messages delivered although a reflected frame sits at position %d", len(delivered), k)
+	}
+	for i := range delivered {
+		if i >= len(msgs) || !bytes.Equal(delivered[i], msgs[i]) {
+			bad = fmt.Sprintf("message %d is not what the peer sent (an endpoint's own frame was accepted back)", i)
+			break
+		}
+	}
+	cls := "distinct-digests"
+	if prelude == 0 {
+		cls = "equal-digests"
+	}
+	c.Count("reflect:" + cls + ":" + variant)
+	if bad != "" {
+		c.Violate(Violation{Property: "C02", Key: "C02:reflect:" + cls + ":" + variant + fmt.Sprintf(":own-frame-%d-at-%d", j, k), What: bad,
+			Ops: append([]string{}, w.ops...), Expected: fmt.Sprintf("at most %d messages, all from the peer", k), Observed: fmt.Sprintf("%d delivered", len(delivered))})
+	}
+	w.finish()
+	c.Distinct(fmt.Sprintf("reflect|%d|%d|%d|%d|%s|%d", prelude, nOwn, nA, j, variant, k), true)
+	_ = ownMsgs
+	return Case{Label: fmt.Sprintf("reflect#%d", idx), Ops: w.ops, Real: w.real}
 }
 
 type tamperSpec struct {
